@@ -351,6 +351,7 @@ theorem fuel_ok : ∀ f, FOk (aCall Fix.all f) f
         exact nof_append (nof_stop _ hg f ih g k hk S hc hS)
           (nof_start _ hg f ih _ k hk' S (cover_sub (sub_of_pres ST.1) hc) hS)
       | run e => exact nof_run _ hg f ih g k e hk S hc hS
+      | defn i => exact nof_nil
 
 theorem cover_range (g : Arena) : Cover g (List.range g.length) := fun j hj _ => List.mem_range.2 hj
 
